@@ -8,7 +8,7 @@ from typing import Dict, List, Optional, Set, Tuple
 
 from ..astutil import arg_of, call_name, calls, enclosing_loops, guards, kwarg, last_attr, stmt_key, txt, walk_local
 from ..cfg import CFG
-from ..flow import bound_from, effective_compare, expand_helpers, facts_nnf, inline_reaching, key_function, oriented, path_facts
+from ..flow import bound_from, effective_compare, expand_helpers, facts_nnf, nnf, inline_reaching, key_function, oriented, path_facts
 from ..index import AnalysisError, dotted
 from ..report import Ctx
 
@@ -139,11 +139,12 @@ def r05_2(ctx: Ctx) -> None:
     ctx.ob("R05.2", FORM, func, "_find_hybrids", "hybrid pair sites", len(pair_adds) == 2,
            "hybrid pairs are found among all pairs and for the first/last (origin) pair", form=str(len(pair_adds)))
     # all pairs: i < j double loop without early exit
-    loops = [n for n in walk_local(func) if isinstance(n, ast.For) and "enumerate(clusters[:-1])" in txt(n.iter)]
-    ok = bool(loops) and any(isinstance(n, ast.For) and txt(n.iter) == "clusters[i + 1:]" for n in walk_local(loops[0])) \
-        and not any(isinstance(n, ast.Break) for n in walk_local(loops[0]))
-    ctx.ob("R05.2", FORM, loops[0] if loops else func, "_find_hybrids", "all pairs compared", ok,
-           "sharing a gene is not monotone in position, so every pair is compared (no early exit)", form="")
+    from ..flow import all_pairs_of
+    paired = [(add, all_pairs_of(add, func)) for add in pair_adds if enclosing_loops(add, stop=func)]
+    ok = len(paired) == 1 and paired[0][1] is not None
+    ctx.ob("R05.2", FORM, paired[0][0] if paired else func, "_find_hybrids", "all pairs compared", ok,
+           "sharing a gene is not monotone in position, so every pair is compared (no early exit)",
+           form=f"all unordered pairs of {paired[0][1]}" if ok else "")
     # containment into a hybrid: inner is a core, outer is the group's connected core
     helper = ctx.fn(FORM, "_find_hybrids.update_if_contained")
     cont = [c for c in calls(helper) if call_name(c) == "location_contains_other"]
@@ -351,7 +352,23 @@ def r05_4(ctx: Ctx) -> None:
            "the assertion counts members of the candidates actually returned", form="; ".join(region))
     helper = ctx.fn(FORM, "create_candidates_from_protoclusters.build_candidates")
     asserts = [n for n in walk_local(helper) if isinstance(n, ast.Assert)]
-    ok = any("len(group) > 1" in txt(a.test) and "SINGLE" in txt(a.test) for a in asserts)
+    ok = False
+    hcfg = CFG(helper)
+    for a in asserts:
+        # what the assertion demands, its path condition included: `kind is SINGLE or the group has several members`
+        terms = [ast.UnaryOp(op=ast.Not(), operand=e) if t else e for e, t in path_facts(hcfg, a)] + [a.test]
+        form = nnf(ast.BoolOp(op=ast.Or(), values=terms) if len(terms) > 1 else terms[0])
+        lits = list(form[1]) if form[0] == "or" else [form]
+        if len(lits) != 2 or any(lit[0] != "lit" for lit in lits):
+            continue
+        single = [lit for lit in lits if lit[2] and re.fullmatch(r"kind (==|is) [\w.]*SINGLE|[\w.]*SINGLE (==|is) kind", lit[1])]
+        sizes = []
+        for lit in lits:
+            cmp_ = effective_compare(ast.parse(lit[1], mode="eval").body, lit[2])
+            cmp_ = oriented(cmp_, lambda e: txt(e) == "len(group)") if cmp_ else None
+            if cmp_ is not None and (cmp_[1], txt(cmp_[2])) in ((">", "1"), (">=", "2")):
+                sizes.append(lit)
+        ok = ok or (len(single) == 1 and len(sizes) == 1)
     ctx.ob("R05.4", FORM, helper, "create_candidates_from_protoclusters.build_candidates", "group size", ok,
            "only SINGLE candidates may have one member", form="; ".join(txt(a.test) for a in asserts))
     # every leftover protocluster gets a single unless de-duplicated against a candidate containing it
